@@ -8,6 +8,7 @@ from buidl.helper import (
     base64_encode,
     child_to_path,
     encode_varstr,
+    hash160,
     int_to_little_endian,
     little_endian_to_int,
     parse_binary_path,
@@ -1588,6 +1589,15 @@ Witness:\n{self.witness}
             sec = list(self.sigs.keys())[0]
             # the value of the sigs dict is the signature
             sig = list(self.sigs.values())[0]
+            # the signature has to be from the key that this input pays to
+            if self.redeem_script:
+                h160 = self.redeem_script.commands[1]
+            else:
+                h160 = script_pubkey.commands[1]
+            if hash160(sec) != h160:
+                raise RuntimeError(
+                    "the signature is not from the public key of this input"
+                )
             # set the ScriptSig to the RedeemScript if there is one
             if self.redeem_script:
                 self.script_sig = Script([self.redeem_script.raw_serialize()])
@@ -1676,6 +1686,11 @@ Witness:\n{self.witness}
             sec = list(self.sigs.keys())[0]
             # the value of the sigs dict is the signature
             sig = list(self.sigs.values())[0]
+            # the signature has to be from the key that this input pays to
+            if hash160(sec) != script_pubkey.commands[2]:
+                raise RuntimeError(
+                    "the signature is not from the public key of this input"
+                )
             # set the ScriptSig, which is Script([sig, sec])
             self.script_sig = Script([sig, sec])
         else:
